@@ -189,7 +189,18 @@ type IfaceMethodSpec struct {
 	Spec   *FuncSpec
 }
 
+// WireSpec: the JSON view of a struct type ("wire T" / "json Field=name ..."): the listed fields are serialised under exactly
+// these tags (checked against the struct tags; encoding/json itself is outside the verified code).
+type WireSpec struct {
+	Pkg    string
+	Type   string
+	Props  []string
+	Fields [][2]string // Go field name, expected json tag value
+	Src    string
+}
+
 type SpecDB struct {
+	Wires   []*WireSpec
 	Funcs   map[string]*FuncSpec // key: pkgpath + "." + Name
 	Specs   map[string]*SpecFunc // key: pkgpath + "." + name ; also looked up by bare name across packages
 	Lemmas  []*Lemma
@@ -717,10 +728,10 @@ type rawLine struct {
 	src  string
 }
 
-var topKeywords = map[string]bool{"func": true, "spec": true, "pred": true, "lemma": true, "ifacemethod": true}
+var topKeywords = map[string]bool{"func": true, "spec": true, "pred": true, "lemma": true, "ifacemethod": true, "wire": true}
 var clauseKeywords = map[string]bool{"assumes": true, "returnhint": true, "refines": true, "requires": true, "ensures": true, "panics_if": true, "panics_iff": true, "nopanic": true,
 	"assigns": true, "loop": true, "trusted": true, "inline": true, "fnparam": true, "property": true, "maxpaths": true,
-	"opaque": true, "unfold": true}
+	"opaque": true, "unfold": true, "json": true}
 
 func firstWord(s string) string {
 	s = strings.TrimSpace(s)
@@ -817,6 +828,27 @@ func (db *SpecDB) addItem(it *rawItem, pkgPath string) (err error) {
 	w := firstWord(it.head)
 	rest := strings.TrimSpace(it.head[len(w):])
 	switch w {
+	case "wire":
+		ws := &WireSpec{Pkg: pkgPath, Type: strings.TrimSpace(rest), Src: it.src}
+		for _, l := range it.lines {
+			t := strings.TrimSpace(l.text)
+			switch firstWord(t) {
+			case "property":
+				ws.Props = append(ws.Props, strings.Fields(t)[1:]...)
+			case "json":
+				for _, kv := range strings.Fields(t)[1:] {
+					i := strings.Index(kv, "=")
+					if i <= 0 {
+						return fmt.Errorf("%s: json Field=tag expected, got %q", l.src, kv)
+					}
+					ws.Fields = append(ws.Fields, [2]string{kv[:i], kv[i+1:]})
+				}
+			default:
+				return fmt.Errorf("%s: wire: unknown clause %q", l.src, t)
+			}
+		}
+		db.Wires = append(db.Wires, ws)
+		return nil
 	case "func", "ifacemethod":
 		fs := &FuncSpec{Pkg: pkgPath, Name: strings.TrimSpace(rest), Loops: map[int]*LoopSpec{}, FnParams: map[string]*FnParamSpec{}, Src: it.src}
 		for _, l := range it.lines {
